@@ -1,14 +1,24 @@
 package main
 
-// A call of WriteRowGroup that fails while the verbatim copy is being staged
-// must leave nothing behind: the source file is opened with SkipPageIndex
-// through a ReaderAt that, once armed, refuses to read the column index (or
-// the offset index) of one column, so loadCopiedChunk fails at that column
-// after the columns before it were staged.  The writer is then used further
-// (rows one by one, or a healthy row group) and closed.  Predicate: the file
-// holds exactly the rows written before the failed call (buffered ones
-// included: they are flushed first) followed by the rows written after it, in
-// order; when the call did not fail, the rows of the row group as well.
+// A call of WriteRowGroup that fails before it writes anything must leave
+// nothing behind.
+//
+//   - while the verbatim copy is being staged: the source file is opened with
+//     SkipPageIndex through a ReaderAt that, once armed, refuses to read the
+//     column index (or the offset index) of one column, so loadCopiedChunk fails
+//     at that column after the columns before it were staged;
+//   - while the values are written column by column (FaultAt "pages": one row
+//     group into a destination with another codec; "pack": a concatenation of
+//     the faulty row group and a healthy one, packed into one output row
+//     group): the ReaderAt refuses the pages of one column, so copyColumnValues
+//     fails at that column after the values of the columns before it went into
+//     their column writers.
+//
+// The writer is then used further (rows one by one, or a healthy row group) and
+// closed.  Predicate: the file holds exactly the rows written before the
+// failed call (buffered ones included: they are flushed first) followed by the
+// rows written after it, in order; when the call did not fail, the rows of the
+// row group as well.
 
 import (
 	"bytes"
@@ -66,8 +76,20 @@ func checkFault(c *core.Ctx, cs c11Case) (bucket string, nontrivial bool) {
 		col = 0
 	}
 	fr := &faultyReader{data: data}
+	pagesFault := cs.FaultAt == "pages" || cs.FaultAt == "pack"
+	if pagesFault {
+		bucket = fmt.Sprintf("fault-%s:%s/%s", cs.FaultAt, cs.Shape, cs.After)
+	}
 	for _, rg := range md.RowGroups {
 		ch := rg.Columns[col]
+		if pagesFault {
+			start := ch.MetaData.DataPageOffset
+			if d := ch.MetaData.DictionaryPageOffset; d != 0 && d < start {
+				start = d
+			}
+			fr.ranges = append(fr.ranges, [2]int64{start, start + ch.MetaData.TotalCompressedSize})
+			break // the row group written by the failing call
+		}
 		if cs.FaultOI {
 			fr.ranges = append(fr.ranges, [2]int64{ch.OffsetIndexOffset, ch.OffsetIndexOffset + int64(ch.OffsetIndexLength)})
 		} else {
@@ -87,8 +109,33 @@ func checkFault(c *core.Ctx, cs c11Case) (bucket string, nontrivial bool) {
 		perRG = append(perRG, rows)
 	}
 
+	dstOpts := b.srcOpts
+	source, callRows := ff.RowGroups()[0], perRG[0]
+	if pagesFault {
+		if dstOpts.Codec == "snappy" {
+			dstOpts.Codec = "gzip"
+		} else {
+			dstOpts.Codec = "snappy"
+		}
+		healthy := parquet.RowGroup(clean[0])
+		if cs.FaultAt == "pack" {
+			source = parquet.MultiRowGroup(ff.RowGroups()[0], clean[len(clean)-1])
+			healthy = parquet.MultiRowGroup(clean[0], clean[len(clean)-1])
+			callRows = append(append([]parquet.Row(nil), perRG[0]...), perRG[len(perRG)-1]...)
+		}
+		// the same call without the fault is written column by column in one piece
+		var scratch bytes.Buffer
+		sw := parquet.NewGenericWriter[any](&scratch, append([]parquet.WriterOption{schemaOf(b.srcRoot)}, dstOpts.writerOptions(b.srcRoot, b.sortKey)...)...)
+		c0, r0 := parquet.VerifCopyPathCount(), parquet.VerifReencodePathCount()
+		_, herr := sw.WriteRowGroup(healthy)
+		dc, dr := parquet.VerifCopyPathCount()-c0, parquet.VerifReencodePathCount()-r0
+		sw.Close()
+		if herr != nil || dc != 0 || dr != 1 {
+			return bucket + "=not-column-wise", false
+		}
+	}
 	var outBuf bytes.Buffer
-	w := parquet.NewGenericWriter[any](&outBuf, append([]parquet.WriterOption{schemaOf(b.srcRoot)}, b.srcOpts.writerOptions(b.srcRoot, b.sortKey)...)...)
+	w := parquet.NewGenericWriter[any](&outBuf, append([]parquet.WriterOption{schemaOf(b.srcRoot)}, dstOpts.writerOptions(b.srcRoot, b.sortKey)...)...)
 	var expect []parquet.Row
 	npend := cs.Pending
 	if npend > len(perRG[0]) {
@@ -102,14 +149,22 @@ func checkFault(c *core.Ctx, cs c11Case) (bucket string, nontrivial bool) {
 	}
 	fr.armed = true
 	c0, r0 := parquet.VerifCopyPathCount(), parquet.VerifReencodePathCount()
-	n, werr := w.WriteRowGroup(ff.RowGroups()[0])
+	n, werr := w.WriteRowGroup(source)
 	dc, dr := parquet.VerifCopyPathCount()-c0, parquet.VerifReencodePathCount()-r0
 	outcome := "written"
 	switch {
 	case werr == nil:
-		expect = append(expect, perRG[0]...)
-		if n != int64(len(perRG[0])) {
-			violation(c, "rows-written-count", fmt.Sprintf("%s: WriteRowGroup returned %d, the row group holds %d rows", bucket, n, len(perRG[0])), cs)
+		expect = append(expect, callRows...)
+		if n != int64(len(callRows)) {
+			violation(c, "rows-written-count", fmt.Sprintf("%s: WriteRowGroup returned %d, the row group holds %d rows", bucket, n, len(callRows)), cs)
+			return bucket, true
+		}
+	case pagesFault && dc == 0 && dr == 0 && fr.hits > 0:
+		// the values were being written column by column: those of the columns before the faulty
+		// one are in their column writers, no row group was written
+		outcome = "column-wise-failed"
+		if n != 0 {
+			violation(c, "rows-written-count", fmt.Sprintf("%s: WriteRowGroup failed (%v) and returned %d rows", bucket, werr, n), cs)
 			return bucket, true
 		}
 	case dr == 0 && int(dc) == col && fr.hits > 0:
@@ -163,5 +218,5 @@ func checkFault(c *core.Ctx, cs c11Case) (bucket string, nontrivial bool) {
 		violation(c, "rows-after-failed-call-differ", fmt.Sprintf("%s: %d rows were written (%d buffered before the call, outcome %s: %v, then %d), the file holds %d rows; first difference at row %d", bucket, len(ce), npend, outcome, werr, len(perRG[last]), len(cg), i), cs)
 		return bucket, true
 	}
-	return bucket + "=" + outcome, outcome == "copy-failed"
+	return bucket + "=" + outcome, outcome != "written"
 }
